@@ -3,12 +3,12 @@ CONSTANTS
   GPUs = {1, 2}
   Unit = 2
   PortCap = 1
-  MCFrames <- Frames2
+  MCFrames <- Frames3
   FrameChunks = 2
   MaxMig = 2
   Serial = FALSE
   Requesters = {1, 2}
-  MCPages <- Pages1
+  MCPages <- Pages2
   SkipZero = FALSE
   AcceptGuard = "handling"
 INVARIANTS TypeOK ContentsCopied NothingElseChanged CompleteOnce OneAtATime RoutedBack InRange AllServed
